@@ -146,7 +146,9 @@ func RunWorker(p *Prop, a WorkerArgs) *Summary {
 		if a.Emit != nil && time.Since(lastEmit) > 2*time.Second {
 			lastEmit = time.Now()
 			s.WallS = time.Since(start).Seconds()
-			a.Emit(snapshot(s, fps, states, inter, seenSig))
+			// periodic (crash-recovery) snapshots carry the counters and failures only;
+			// the large hash sets are sent with the final summary
+			a.Emit(snapshot(s, nil, nil, nil, seenSig))
 		}
 		if a.Deadline > 0 && time.Since(start) > a.Deadline {
 			s.Infra = append(s.Infra, fmt.Sprintf("soft deadline reached after %d of %d runs", s.Evaluations, (total-a.Worker+a.Workers-1)/a.Workers))
